@@ -113,6 +113,23 @@ func c01Structured() []kindDef {
 			return &dialect.Schema{AllOf: []*dialect.Schema{{Ref: "Pet"}, {Ref: "Dog"}}}
 		}, comp: []dialect.Prop{pet, {Name: "Dog", Schema: &dialect.Schema{Type: "object", Props: []dialect.Prop{{Name: "bark", Schema: &dialect.Schema{Type: "boolean"}}}}}}},
 	}
+	// every component kind again, reached through components that are only a $ref (one step and two)
+	for _, k := range ks {
+		k := k
+		s := k.mk()
+		if s.Ref == "" {
+			continue
+		}
+		comp := append(append([]dialect.Prop{}, k.comp...),
+			dialect.Prop{Name: s.Ref + "Alias", Schema: &dialect.Schema{Ref: s.Ref}},
+			dialect.Prop{Name: s.Ref + "Alias2", Schema: &dialect.Schema{Ref: s.Ref + "Alias"}})
+		ks = append(ks,
+			kindDef{name: "alias-" + k.name, mk: func() *dialect.Schema { return &dialect.Schema{Ref: s.Ref + "Alias"} }, comp: comp},
+			kindDef{name: "alias2-" + k.name, mk: func() *dialect.Schema { return &dialect.Schema{Ref: s.Ref + "Alias2"} }, comp: comp})
+	}
+	ks = append(ks, kindDef{name: "allof-alias-inline", mk: func() *dialect.Schema {
+		return &dialect.Schema{AllOf: []*dialect.Schema{{Ref: "PetAlias"}, {Type: "object", Props: []dialect.Prop{{Name: "extra", Schema: &dialect.Schema{Type: "boolean"}}}}}}
+	}, comp: []dialect.Prop{pet, {Name: "PetAlias", Schema: &dialect.Schema{Ref: "Pet"}}}})
 	for _, p := range c01Prims {
 		p := p
 		ks = append(ks,
